@@ -164,6 +164,9 @@ class GAM(Core, MetaTermMixin):
         self.link = link
         self.callbacks = callbacks
         self.verbose = verbose
+        # the model owns its terms: never share (mutable) term objects with the caller's
+        # expression or with other models built from it
+        terms = deepcopy(terms)
         self.terms = TermList(terms) if isinstance(terms, Term) else terms
         self.fit_intercept = fit_intercept
 
